@@ -46,6 +46,7 @@ def run_jobs(check, tier, seed, jobs, tmp, timeout):
             env = envs.worker_env(job.get("env"), hashseed=str(job.get("hashseed", "0")))
             env["OLVERIF_MARKER"] = os.path.join(tmp, "m%d.txt" % idx)
             env["OLVERIF_SKIP"] = json.dumps(job.get("_skip", []))
+            env["OLVERIF_SIDECAR"] = os.path.join(tmp, "v%d.jsonl" % idx)
             errf = open(os.path.join(tmp, "e%d.txt" % idx), "w+")
             p = subprocess.Popen(cmd, stdout=errf, stderr=subprocess.STDOUT, env=env, cwd=tmp)
             running.append((p, job, outfile, errf, time.time()))
@@ -87,6 +88,20 @@ def run_jobs(check, tier, seed, jobs, tmp, timeout):
         running = still
         if running:
             time.sleep(0.05)
+    for job, res, err in done:
+        if res is None and "shard" in job:
+            sc = os.path.join(tmp, "v%d.jsonl" % jobs.index(job))
+            if os.path.exists(sc):
+                seen = set()
+                for line in open(sc):
+                    try:
+                        v = json.loads(line)
+                    except ValueError:
+                        continue
+                    k = json.dumps(v, sort_keys=True)
+                    if k not in seen:
+                        seen.add(k)
+                        job.setdefault("_sidecar", []).append(v)
     return done
 
 
@@ -97,6 +112,10 @@ def merge(results):
     for job, res, err in results:
         if res is None:
             m["inconclusive"][err.split(":")[0]] = m["inconclusive"].get(err.split(":")[0], 0) + 1
+            # violations the worker witnessed before it died / was stopped are still violations
+            for v in job.get("_sidecar", []):
+                m["violations"].append(dict(v, host=job["host"], args=job.get("args", {})))
+                m["nviol"] += 1
             if err.startswith("missing-interpreter"):
                 # the cells of that interpreter are inconclusive (recorded), the rest of the check still decides
                 m["inconclusive"][err] = m["inconclusive"].get(err, 0) + 1
